@@ -911,6 +911,7 @@ inductive StripRel : ReState → ValState → ValState → Prop
   | even (v : ValState) : v ≠ .esc → StripRel .even v v
   | odd (v : ValState) : v ≠ .esc → StripRel .odd v .esc
   | space (v : ValState) : v ≠ .esc → StripRel .space v .skip
+  | spaceBs (v : ValState) : v ≠ .esc → StripRel .spaceBs v .esc
 
 theorem isContWs_backslash : isContWs '\\' = false := by decide
 theorem isContWs_nl : isContWs '\n' = true := by decide
@@ -925,6 +926,7 @@ theorem strip_sim : ∀ (s : List Char), (∀ c ∈ s, c ≠ '\r') → ∀ (rs :
     | even _ _ => cases vo <;> rfl
     | odd _ hv => cases vo <;> first | rfl | exact absurd rfl hv
     | space _ hv => cases vo <;> first | rfl | exact absurd rfl hv
+    | spaceBs _ hv => cases vo <;> first | rfl | exact absurd rfl hv
   | c :: r, hcr, rs, vo, vi, hr => by
     have hc : c ≠ '\r' := hcr c (by simp)
     have hr' : ∀ d ∈ r, d ≠ '\r' := fun d hd => hcr d (by simp [hd])
@@ -964,14 +966,20 @@ theorem strip_sim : ∀ (s : List Char), (∀ c ∈ s, c ≠ '\r') → ∀ (rs :
           rw [ih _ _ _ (.even _ (by simp))]
       | space _ hv =>
         simp only [stripGo, isContWs_backslash, Bool.false_eq_true, if_false, beq_self_eq_true, if_true]
+        simp only [strValueGo, isContWs_backslash, Bool.false_eq_true, if_false, beq_self_eq_true, if_true]
+        exact ih _ _ _ (.spaceBs _ hv)
+      | spaceBs _ hv =>
+        have h2 : ('\\' == '\n') = false := by decide
+        have h3 : ('\\' == '\r') = false := by decide
+        simp only [stripGo, h2, h3, Bool.or_self, Bool.false_eq_true, if_false, beq_self_eq_true, if_true]
         cases vo with
         | normal =>
-          simp only [strValueGo, beq_self_eq_true, if_true, isContWs_backslash, Bool.false_eq_true, if_false]
-          exact ih _ _ _ (.start _)
+          simp only [strValueGo, beq_self_eq_true, if_true, h2, Bool.false_eq_true, if_false]
+          rw [ih _ _ _ (.start _)]
         | esc => exact absurd rfl hv
         | skip =>
-          simp only [strValueGo, isContWs_backslash, Bool.false_eq_true, if_false, beq_self_eq_true, if_true]
-          exact ih _ _ _ (.start _)
+          simp only [strValueGo, isContWs_backslash, Bool.false_eq_true, if_false, beq_self_eq_true, if_true, h2]
+          rw [ih _ _ _ (.start _)]
     · have hb : (c == '\\') = false := by simpa using h1
       by_cases h2 : c = '\n'
       · subst h2
@@ -996,6 +1004,10 @@ theorem strip_sim : ∀ (s : List Char), (∀ c ∈ s, c ≠ '\r') → ∀ (rs :
         | space _ hv =>
           simp only [stripGo, isContWs_nl, if_true]
           simp only [strValueGo, isContWs_nl, if_true]
+          exact ih _ _ _ (.space _ hv)
+        | spaceBs _ hv =>
+          simp only [stripGo, beq_self_eq_true, Bool.true_or, if_true]
+          simp only [strValueGo, beq_self_eq_true, if_true]
           exact ih _ _ _ (.space _ hv)
       · have hn : (c == '\n') = false := by simpa using h2
         have hcr' : (c == '\r') = false := by simpa using hc
@@ -1050,6 +1062,16 @@ theorem strip_sim : ∀ (s : List Char), (∀ c ∈ s, c ≠ '\r') → ∀ (rs :
             | skip =>
               simp only [strValueGo, hb, hw, Bool.false_eq_true, if_false]
               rw [ih _ _ _ (.even _ (by simp))]
+        | spaceBs _ hv =>
+          simp only [stripGo, hb, hn, hcr', Bool.false_eq_true, if_false, Bool.or_self]
+          cases vo with
+          | normal =>
+            simp only [strValueGo, beq_self_eq_true, if_true, hn, Bool.false_eq_true, if_false]
+            rw [ih _ _ _ (.even _ (by simp))]
+          | esc => exact absurd rfl hv
+          | skip =>
+            simp only [strValueGo, isContWs_backslash, beq_self_eq_true, if_true, hn, Bool.false_eq_true, if_false]
+            rw [ih _ _ _ (.even _ (by simp))]
 
 theorem strValue_strip (s : List Char) (h : ∀ c ∈ s, c ≠ '\r') : strValue (stripLineBreaks s) = strValue s :=
   strip_sim s h .start .normal .normal (.start _)
